@@ -594,10 +594,9 @@ func refSemantics(rc *refCell, bc *absint.BoolCtx, decimal bool) (*valExpect, st
 	case "clv":
 		ex.flags["V"] = absint.BConst(false)
 	case "bcc", "bcs", "beq", "bne", "bmi", "bpl", "bvc", "bvs", "bra":
-		// PC + 2 + sign-extended displacement, with the sign as an explicit case
+		// PC + 2 + sign-extended displacement
 		next := o.Add(PC, k16(2))
-		fwd := o.Add(next, rc.z(rc.ib(1), 16))
-		target := rvIte(bit(rc.ib(1), 7), rvLeaf(o.Add(fwd, k16(0xFF00))), rvLeaf(fwd))
+		target := rvLeaf(o.Add(next, o.Convert(rc.ib(1), 16, true, false)))
 		var cond *absint.BExpr
 		switch mn {
 		case "bcc":
@@ -745,15 +744,20 @@ const maxValuePaths = 4096
 type pathExplorer struct {
 	o     absint.Ops
 	bc    *absint.BoolCtx
-	env   map[string]bool // propositions fixed on this path
-	asg   map[string]bool // gate key -> outcome on this path
+	env   map[string]bool   // propositions fixed on this path
+	asg   map[string]bool   // gate key -> outcome on this path
+	sub   map[string]uint64 // 0/1-valued extraction atoms fixed on this path
 	paths int
 	over  bool
 	note  string
 }
 
 func newExplorer(o absint.Ops, bc *absint.BoolCtx, forced map[string]bool) *pathExplorer {
-	pe := &pathExplorer{o: o, bc: bc, env: map[string]bool{}, asg: map[string]bool{}}
+	if bc.O == nil {
+		oo := o
+		bc.O = &oo
+	}
+	pe := &pathExplorer{o: o, bc: bc, env: map[string]bool{}, asg: map[string]bool{}, sub: map[string]uint64{}}
 	for k, v := range forced {
 		pe.env[k] = v
 	}
@@ -797,16 +801,48 @@ func (pe *pathExplorer) branch(e *absint.BExpr, k func(bool)) {
 	}
 }
 
+// reducibleBitAtom finds a 0/1 atom in the forms that merely extracts a bit of another
+// term and is not yet fixed on the path, with the proposition it stands for.
+func (pe *pathExplorer) reducibleBitAtom(ls ...*absint.Lin) (*absint.Atom, *absint.BExpr) {
+	for _, l := range ls {
+		for _, a := range absint.BitAtoms(l) {
+			if _, done := pe.sub[a.Key]; done {
+				continue
+			}
+			e := pe.bc.BitOf(absint.LinAtom(a.W, a), 0)
+			if e.Op == "var" && strings.Contains(e.V, a.Key) {
+				continue // not reducible to a proposition about something else
+			}
+			return a, e
+		}
+	}
+	return nil, nil
+}
+
 // resolve rebuilds l on the current path until no undecided gated merge is left, and
 // calls k with the merge-free value.
 func (pe *pathExplorer) resolve(l *absint.Lin, k func(*absint.Int)) {
 	if pe.over {
 		return
 	}
-	v := pe.o.Rebuild(l, pe.asg)
+	v := pe.o.RebuildSubst(l, pe.asg, pe.sub)
 	conds := map[string]bool{}
 	absint.IteConds(v.Lin, conds)
 	if len(conds) == 0 {
+		// a 0/1 atom that merely extracts a bit of another term (x>>7, the sign inside a
+		// sign extension) is a proposition too: fix it on the path and substitute
+		if a, e := pe.reducibleBitAtom(v.Lin); a != nil {
+			pe.branch(e, func(out bool) {
+				if out {
+					pe.sub[a.Key] = 1
+				} else {
+					pe.sub[a.Key] = 0
+				}
+				pe.resolve(v.Lin, k)
+				delete(pe.sub, a.Key)
+			})
+			return
+		}
 		pe.paths++
 		if pe.paths > maxValuePaths {
 			pe.over = true
@@ -843,7 +879,20 @@ func (pe *pathExplorer) resolve(l *absint.Lin, k func(*absint.Int)) {
 		if x == nil || y == nil {
 			continue
 		}
-		xr, yr := pe.o.Rebuild(x.Lin, pe.asg), pe.o.Rebuild(y.Lin, pe.asg)
+		xr, yr := pe.o.RebuildSubst(x.Lin, pe.asg, pe.sub), pe.o.RebuildSubst(y.Lin, pe.asg, pe.sub)
+		// bit-extraction atoms inside the operands are propositions as well
+		if a, e := pe.reducibleBitAtom(xr.Lin, yr.Lin); a != nil {
+			pe.branch(e, func(out bool) {
+				if out {
+					pe.sub[a.Key] = 1
+				} else {
+					pe.sub[a.Key] = 0
+				}
+				pe.resolve(v.Lin, k)
+				delete(pe.sub, a.Key)
+			})
+			return
+		}
 		inner := map[string]bool{}
 		absint.IteConds(xr.Lin, inner)
 		absint.IteConds(yr.Lin, inner)
@@ -1188,6 +1237,12 @@ func checkValues(ctx *Ctx, isa *ISA, m *CPUModel, rs string, results []*CellResu
 // equal merge-free terms on every path through the gating conditions of both (for
 // 0/1 values: equal boolean functions of the canonical propositions).
 func sameTerm(x *absint.Int, cx map[string]*absint.Bool, y *absint.Int, cy map[string]*absint.Bool) (bool, string) {
+	return sameTermUnder(x, cx, y, cy, nil)
+}
+
+// sameTermUnder is sameTerm on the paths where the given branch outcomes (gate key ->
+// outcome) hold.
+func sameTermUnder(x *absint.Int, cx map[string]*absint.Bool, y *absint.Int, cy map[string]*absint.Bool, under map[string]bool) (bool, string) {
 	if x.Lin.Key() == y.Lin.Key() && x.W == y.W {
 		return true, ""
 	}
@@ -1203,6 +1258,18 @@ func sameTerm(x *absint.Int, cx map[string]*absint.Bool, y *absint.Int, cy map[s
 	o := absint.Ops{In: absint.NewInterner()}
 	bc := &absint.BoolCtx{Conds: conds}
 	pe := newExplorer(o, bc, nil)
+	for k, v := range under {
+		pe.asg[k] = v
+		// a condition that is a single proposition fixes that proposition
+		e := bc.CondExpr(k)
+		neg := false
+		for e.Op == "not" {
+			e, neg = e.A[0], !neg
+		}
+		if e.Op == "var" {
+			pe.env[e.V] = v != neg
+		}
+	}
 	diff := ""
 	flag := x.Hi <= 1 && y.Hi <= 1
 	pe.resolve(x.Lin, func(gx *absint.Int) {
